@@ -82,3 +82,12 @@ fn min_chunk_size(input_len: Option<usize>, max_num_threads: usize, chunk_size: 
         }
     }
 }
+
+#[cfg(feature = "verif-hooks")]
+pub const VERIF_INITIAL_CHUNK_SIZE: usize = INITIAL_CHUNK_SIZE;
+#[cfg(feature = "verif-hooks")]
+pub const VERIF_DESIRED_MIN_CHUNK_SIZE: usize = DESIRED_MIN_CHUNK_SIZE;
+#[cfg(feature = "verif-hooks")]
+pub fn verif_min_required_len(task: ParTask, one_round_len: usize) -> usize {
+    min_required_len(task, one_round_len)
+}
